@@ -14,66 +14,7 @@ import extract  # noqa: E402
 import mir  # noqa: E402
 
 
-class AnchorMissing(Exception):
-    """An anchor of a rule could not be resolved: a checker fault, not a violation."""
-
-
-class Report:
-    def __init__(self, prop, tier):
-        self.prop = prop
-        self.tier = tier
-        self.obligations = []   # dicts
-        self.explanation = []
-        self.assumptions = []
-        self.extra = {}
-        self.floors = []        # (name, count, floor)
-        self.analysed_fns = set()
-
-    def ob(self, rule, instance, status, detail="", where=None, key=None, fn=None, sample=None):
-        """Record one obligation.  status: ok | violated | undecided | exempt."""
-        assert status in ("ok", "violated", "undecided", "exempt"), status
-        if key is None:
-            key = "%s|%s|%s" % (rule, mir.short(fn) if fn else "-", instance)
-        o = {"rule": rule, "instance": instance, "status": status, "detail": detail,
-             "where": where, "key": key}
-        if fn:
-            o["fn"] = fn
-            self.analysed_fns.add(fn)
-        if sample is not None:
-            o["sample"] = sample
-        self.obligations.append(o)
-        return o
-
-    def floor(self, name, count, floor):
-        """Fail closed when a rule matched fewer instances than were confirmed by hand."""
-        self.floors.append((name, count, floor))
-
-    def explain(self, text):
-        self.explanation.append(text)
-
-    def assume(self, text):
-        if text not in self.assumptions:
-            self.assumptions.append(text)
-
-    def touched(self, fn_path):
-        self.analysed_fns.add(fn_path)
-
-
-class Ctx:
-    def __init__(self, tier):
-        self.tier = tier
-        self._facts = {}
-
-    def facts(self, config="default", names=None):
-        k = (config, tuple(names) if names else None)
-        if k not in self._facts:
-            d = extract.ensure(config)
-            self._facts[k] = mir.Facts(d, names)
-        return self._facts[k]
-
-    def rules(self, name):
-        with open(os.path.join(VERIF, "rules", name)) as fh:
-            return json.load(fh)
+from core import AnchorMissing, Report, Ctx  # noqa: E402
 
 
 def load_known():
